@@ -23,7 +23,8 @@
 (*   invalid, dndSec, started (-1 unknown), evictKind (does not tolerate   *)
 (*   the disruption taint and is not a mirror pod), npdb (matching PDBs),  *)
 (*   pdbAllowed (of the single matching PDB), pdbWaived (AlwaysAllow and   *)
-(*   the pod is unready), resched (Karpenter would reschedule it)          *)
+(*   the pod is unready), resched (Karpenter would reschedule it),         *)
+(*   costPos (its eviction cost is positive)                               *)
 (***************************************************************************)
 EXTENDS Naturals, Integers, Sequences, FiniteSets, TLC
 
@@ -44,6 +45,16 @@ PodPdbBlocks(p) == /\ p.active /\ p.evictKind
 \* pod-level blockers are waived only for the eventual class and only with a terminationGracePeriod
 Waived(m, v) == Eventual(m) /\ v.tgp
 HasResched(v) == \E i \in DOMAIN v.pods : v.pods[i].resched
+\* A node is EMPTY only if every pod Karpenter would have to reschedule has a non-positive eviction cost - pod by pod: a
+\* cheap-to-delete pod never cancels out a neighbour.  (Eviction cost as pkg/utils/disruption documents it:
+\* 1 + pod-deletion-cost / 2^27 + priority / 2^25, clamped to [-10, 10]; the clamp keeps the sign.)
+NonEmpty(v) == \E i \in DOMAIN v.pods : v.pods[i].resched /\ v.pods[i].costPos
+\* sign of the eviction cost from the annotation (0 when absent / unparsable) and the priority (0 when unset), exact in
+\* 32-bit arithmetic: cost > 0  <=>  dc + 4 * prio > -2^27  <=>  (dc div 4) + prio > -2^25, or equal with a remainder
+CostPositive(dc, prio) ==
+    IF prio >= 536870912 THEN TRUE
+    ELSE IF prio <= -1073741824 THEN FALSE
+    ELSE LET s == (dc \div 4) + prio IN s > -33554432 \/ (s = -33554432 /\ dc % 4 > 0)
 
 \* ---------------------------------------------------------------- the blocker table, one conjunct per blocker
 Conjuncts == <<"managed", "hasNode", "initialized", "notDeleting", "notMarked", "notNominated", "noNodeDnd",
@@ -64,7 +75,7 @@ Holds(c, m, v, now) ==
       [] c = "consolidatable"      -> Consolidation(m) => v.consolidatable = "True"
       [] c = "poolKind"            -> IF m = "staticdrift" THEN v.static ELSE ~v.static
       [] c = "consolidateAfterSet" -> Consolidation(m) => v.caSet
-      [] c = "policy"              -> (m \in {"multi", "single"} /\ HasResched(v)) => v.policy # "WhenEmpty"
+      [] c = "policy"              -> (Consolidation(m) /\ NonEmpty(v)) => v.policy # "WhenEmpty"
       [] c = "noBuffer"            -> m = "emptiness" => v.buffer = 0
       [] c = "drifted"             -> Eventual(m) => v.drifted = "True"
 
@@ -116,7 +127,8 @@ PodView(p, W) ==
     IN [key |-> p.key, active |-> active, dndKind |-> p.dndKind, dndSec |-> p.dndSec, started |-> p.started,
         evictKind |-> ~p.toleratesDisruption /\ p.owner # "node",
         npdb |-> Cardinality(B), pdbAllowed |-> one.allowed, pdbWaived |-> one.alwaysAllow /\ p.readyFalse,
-        resched |-> (active \/ (p.owner = "statefulset" /\ p.terminating /\ ~terminal)) /\ p.owner \notin {"daemonset", "node"}]
+        resched |-> (active \/ (p.owner = "statefulset" /\ p.terminating /\ ~terminal)) /\ p.owner \notin {"daemonset", "node"},
+        costPos |-> CostPositive(IF p.hasDeletionCost THEN p.deletionCost ELSE 0, IF p.hasPriority THEN p.priority ELSE 0)]
 
 \* G: ghost state of the trace [marked: set of node/claim names, nominated: set of <<name, at>>, buffer: set of
 \* <<name, n>>, window: nomination window]; cand: a logged candidate record [node, claim, ...]
